@@ -28,6 +28,167 @@ type Facts struct {
 	// binds to constants
 	specFn *ssa.Function
 	spec   map[*ssa.Parameter]bool
+	specIn map[*ssa.BasicBlock]map[Lit]bool // local facts of specFn recomputed under the bindings (infeasible edges pruned)
+}
+
+// specLocal: the must-facts of specFn's blocks when its bound boolean parameters have their constant values: the
+// forward dataflow of computeFacts started from those literals, where an edge whose literal contradicts what is
+// known is not taken. Blocks absent from the result cannot execute in this activation.
+func (f *Facts) specLocal() map[*ssa.BasicBlock]map[Lit]bool {
+	if f.specIn != nil {
+		return f.specIn
+	}
+	fn := f.specFn
+	in := map[*ssa.BasicBlock]map[Lit]bool{}
+	f.specIn = in
+	if fn == nil || len(fn.Blocks) == 0 {
+		return in
+	}
+	entry := map[Lit]bool{}
+	for p, v := range f.spec {
+		entry[Lit{p, v}] = true
+	}
+	in[fn.Blocks[0]] = entry
+	// derive: what a comparison of a boolean with a bound parameter says about that boolean; false = contradiction
+	var derive func(m map[Lit]bool) bool
+	// feasibleEdge: control can go from p to its successor number i in this activation
+	feasibleEdge := func(p *ssa.BasicBlock, i int) bool {
+		pin, ok := in[p]
+		if !ok {
+			return false
+		}
+		cur := copyFacts(pin)
+		for _, l := range edgeLits(p, i) {
+			cur[l] = true
+		}
+		for l := range cur {
+			if cur[Lit{l.V, !l.Pol}] {
+				return false
+			}
+		}
+		return true
+	}
+	var deriveOnce func(m map[Lit]bool) bool
+	derive = func(m map[Lit]bool) bool {
+		for round := 0; round < 4; round++ {
+			n := len(m)
+			if !deriveOnce(m) {
+				return false
+			}
+			if len(m) == n {
+				break
+			}
+		}
+		return true
+	}
+	deriveOnce = func(m map[Lit]bool) bool {
+		for l := range copyFacts(m) {
+			if m[Lit{l.V, !l.Pol}] {
+				return false
+			}
+			// a join all but one of whose incoming edges cannot be taken is the value of the remaining edge
+			if phi, isPhi := l.V.(*ssa.Phi); isPhi && phi.Parent() == fn {
+				var only ssa.Value
+				n := 0
+				for k, pb := range phi.Block().Preds {
+					for si, sb := range pb.Succs {
+						if sb == phi.Block() && feasibleEdge(pb, si) {
+							only = phi.Edges[k]
+							n++
+							break
+						}
+					}
+				}
+				if n == 1 && only != nil {
+					if cv, isConst := only.(*ssa.Const); isConst {
+						if bv, isB := boolConst(cv); isB && bv != l.Pol {
+							return false
+						}
+					} else {
+						if m[Lit{only, !l.Pol}] {
+							return false
+						}
+						m[Lit{only, l.Pol}] = true
+					}
+				}
+			}
+			if u, isNot := l.V.(*ssa.UnOp); isNot && u.Op == token.NOT {
+				m[Lit{u.X, !l.Pol}] = true
+				if m[Lit{u.X, l.Pol}] {
+					return false
+				}
+			}
+			bin, ok := l.V.(*ssa.BinOp)
+			if !ok || (bin.Op != token.EQL && bin.Op != token.NEQ) {
+				continue
+			}
+			for _, pair := range [][2]ssa.Value{{bin.X, bin.Y}, {bin.Y, bin.X}} {
+				p, isParam := pair[1].(*ssa.Parameter)
+				if !isParam {
+					continue
+				}
+				v, bound := f.spec[p]
+				if !bound || !isBoolType(pair[0].Type()) {
+					continue
+				}
+				truth := v == l.Pol
+				if bin.Op == token.NEQ {
+					truth = !truth
+				}
+				if m[Lit{pair[0], !truth}] {
+					return false
+				}
+				m[Lit{pair[0], truth}] = true
+			}
+		}
+		return true
+	}
+	changed := true
+	for changed {
+		changed = false
+		for _, b := range fn.Blocks {
+			if b == fn.Blocks[0] || b == fn.Recover {
+				continue
+			}
+			var acc map[Lit]bool
+			first := true
+			for _, p := range b.Preds {
+				pin, ok := in[p]
+				if !ok {
+					continue
+				}
+				cur := copyFacts(pin)
+				for i, s := range p.Succs {
+					if s == b {
+						for _, l := range edgeLits(p, i) {
+							cur[l] = true
+						}
+						break
+					}
+				}
+				if !derive(cur) {
+					continue // this edge cannot be taken in this activation
+				}
+				if first {
+					acc, first = cur, false
+				} else {
+					for l := range acc {
+						if !cur[l] {
+							delete(acc, l)
+						}
+					}
+				}
+			}
+			if first {
+				continue
+			}
+			if old, had := in[b]; !had || len(old) != len(acc) {
+				in[b] = acc
+				changed = true
+			}
+		}
+	}
+	return in
 }
 
 // specialise adds, inside the helper of a pinned activation, what the constant boolean arguments imply: the
@@ -176,6 +337,16 @@ func (f *Facts) At(b *ssa.BasicBlock) map[Lit]bool {
 		return nil
 	}
 	out := copyFacts(base)
+	if f.spec != nil && b.Parent() == f.specFn {
+		sb, feasible := f.specLocal()[b]
+		if !feasible {
+			f.deep[b] = nil
+			return nil
+		}
+		for l := range sb {
+			out[l] = true
+		}
+	}
 	f.deep[b] = out // recursion guard
 	if up := f.upFacts(b.Parent()); len(up) > 0 {
 		n := len(out)
